@@ -50,6 +50,23 @@ Definition values_sql (c : pctx) (key : string) (sels : list (list matcher)) : o
 Definition series_sql (c : pctx) (sels : list (list matcher)) : option string :=
   match multi_stream_select c sels with Some q => render (series_planner c q) false | None => None end.
 
+(* QueryLabelsService.Labels (reader/service/queryLabelsService.go): the label names of /loki/api/v1/labels and
+   /api/v1/labels; start / end arrive in milliseconds and are cut to whole seconds (time.Unix(ms/1000, 0)) *)
+Definition labels_query (table : string) (ty start_ms end_ms : Z) : select :=
+  and_where [In (Id "type") [IntV ty; IntV 0];
+             Ge (Id "date") (DateV (from_day (start_ms / 1000 * 1000000000)));
+             Le (Id "date") (DateV (end_ms / 1000 / 86400))]
+    (set_from (SimpleCol table "samples") (set_cols [Id "key"] (set_distinct true empty_select))).
+Definition labels_sql (table : string) (ty start_ms end_ms : Z) : option string := render (labels_query table ty start_ms end_ms) false.
+
+Record ln_case := { ln_id : Z; ln_table : string; ln_ty : Z; ln_start_ms : Z; ln_end_ms : Z; ln_sql : string }.
+Definition ln_mismatch (x : ln_case) : bool :=
+  match labels_sql (ln_table x) (ln_ty x) (ln_start_ms x) (ln_end_ms x) with
+  | Some t => negb (String.eqb t (ln_sql x))
+  | None => true
+  end.
+Definition ln_mismatches (cs : list ln_case) : list Z := map ln_id (filter ln_mismatch cs).
+
 Record lv_case := { lv_id : Z; lv_ctx : pctx; lv_key : option string; lv_sels : list (list matcher); lv_sql : string }.
 Definition lv_mismatch (x : lv_case) : bool :=
   match (match lv_key x with Some k => values_sql (lv_ctx x) k (lv_sels x) | None => series_sql (lv_ctx x) (lv_sels x) end) with
